@@ -403,7 +403,27 @@ def check_escaping(ctx):
       if ret is not None and unparse(ret.value).startswith(("html.escape(", "escape(")):
         ctx.ok("TAINT", f"{e.qualname}|delegates to html.escape", ctx.where(e.module, ret), "html.escape replaces & < >")
         continue
-      raise AnalysisError(f"{e.qualname}: the escaping function is not a chain of str.replace calls (idiom not recognised)")
+      # any other construction (a pattern substitution with a table, a loop over characters): interpreted on probe texts
+      from ..consteval import NotConst as _NC, Raised as _R
+      from ..rules.minieval import MiniEval
+      import html as _html
+      probes = ["a & b", "<b>x</b>", "x --> y", "-", "--", ">", "->", "a > b", "&amp;", "&lt;tag&gt;", "<!-- c -->", "&&<<>>", ""]
+      bad_ = []
+      try:
+        for t_ in probes:
+          o_ = MiniEval(ix).call(e, [t_])
+          if not isinstance(o_, str):
+            bad_.append(f"{t_!r} -> {o_!r}")
+          elif "<" in o_ or ">" in o_ or _html.unescape(o_) != t_ or any(not o_[i:].startswith(("&amp;", "&lt;", "&gt;")) for i in range(len(o_)) if o_[i] == "&"):
+            bad_.append(f"{t_!r} -> {o_!r}")
+      except _R:
+        bad_.append("raises")
+      except _NC as ex_:
+        raise AnalysisError(f"{e.qualname}: the escaping function is neither a chain of str.replace calls nor in the interpreted subset ({ex_})")
+      ctx.check(not bad_, "TAINT", f"{e.qualname}|& then <, each once, nothing re-escaped", ctx.where(e.module, e.node), f"interpreted on {len(probes)} probe texts: & < > escaped exactly once",
+                "escape_cue_text, interpreted on probe texts, gives " + "; ".join(bad_[:3]) + ": the output must contain no raw `<`, `>` or `&` (a raw `>` completes `-->` when the preceding text node ends in `--`) "
+                "and must unescape to the input")
+      continue
     base, pairs = ch
     olds = [o for o, _ in pairs]
     problems = []
